@@ -25,7 +25,7 @@ const (
 var (
 	PackagePrefix = []byte{0x5a, 0x48}     // package flag
 	PackageLength = 4                      // package length bytes
-	PackageMaxLen = 1 * 1024 * 1024 * 1024 // 1 Gb
+	PackageMaxLen = 64 * 1024              // a handshake packet has a few hundred bytes
 )
 
 // encHandshake object for handshake
